@@ -87,16 +87,15 @@ CLAIMED["C01"] = dict(
     technique="Lean 4 theorems over a hand-written codec/handle model + differential correspondence + round-trip predicate on implementation transcripts",
     design_ref="DESIGN.md §7 C01")
 CLAIMED["C04"] = dict(
-    text="Proof (Lean 4) about the container model (header writers/parsers of RAW, AU, WAV; geometry table of all containers): re-open info and frame-count bounds; " + _WR +
-         "The geometry (block length, pad allowance, rate quantiser per container) is written from the format definitions, not measured. Partial: header bytes of the other "
-         "containers are not modelled (covered by B). CAF and W64 (sample-granular encodings) have stand-alone byte-exact models (header writer, tailer, parser with the header cache's "
-         "short-read rules, write session): size fields / padding rules for every N, closed bytes independent of the stale frames value and of header updates, the W64 open-time "
-         "'fact' leak as a proved witness; the universal parse(image) theorem is not yet proved for them (concrete instances by kernel evaluation; the parser is tied to the "
-         "code on library-written files and ~7000 truncated/damaged variants per run).",
-         "containers are not modelled (covered by B). AIFF / AIFF-C has its own byte-exact model (SfModel/Aiff.lean, theorems SfProps/C04Aiff.lean: aiff_reopen_info, "
-         "aiff_size_fields, aiff_rate_roundtrip with the proved 2^30 counter-example, aiff_snapshot_valid, stale_frames_ignored_aiff), tied by vlib/aiff.py: every accepted "
-         "sample-granular AIFF encoding x channels x rates x lengths, all header/tail bytes of three store images per session, and library files plus mutants through both parsers.",
-    technique="Lean 4 theorems over a hand-written container model + differential correspondence + predicate on implementation transcripts",
+    text="Proof (Lean 4) about the container models: header writers/parsers of RAW, AU, WAV inside the handle model (re-open info, size fields, frame-count bounds, stale frames ignored), "
+         "the geometry table of all containers, and stand-alone byte-exact models of AIFF/AIFF-C (SfModel/Aiff.lean; aiff_reopen_info: closed bytes of ANY session re-open with the "
+         "right channels, format, rate and frames; aiff_size_fields; aiff_rate_roundtrip for r < 2^30 with the proved 2^30 counter-example; aiff_frames_bound N <= F <= N+1), CAF and W64 "
+         "(SfModel/Caf.lean, W64.lean; size fields and padding rules for every N, closed bytes independent of the stale frames value and of header updates, the W64 open-time 'fact' leak as a "
+         "proved witness; the universal parse(image) theorem is not yet proved for CAF/W64: kernel-evaluated instances only). " + _WR +
+         "The stand-alone models are tied by their own campaigns: every accepted sample-granular encoding x channels x rates (incl. 1, 65536, 2^30, 2^31-1) x lengths, ALL header and tail bytes "
+         "of the store after open, after a header update and after close, and the parsers on library files plus thousands of truncated/damaged variants. The geometry (block length, pad allowance, "
+         "rate quantiser per container) is written from the format definitions, not measured. Partial: header bytes of the other 17 containers are not modelled (covered by B).",
+    technique="Lean 4 theorems over hand-written container models + differential correspondence (file bytes, parser verdicts) + predicate on implementation transcripts",
     design_ref="DESIGN.md §7 C04")
 CLAIMED["C07"] = dict(
     text="Proof (Lean 4): kernel_append, write_partition_store (two calls = one call, every field and byte), file_bytes_fn / file_bytes_partition (closed bytes are a function of "
